@@ -107,7 +107,9 @@ def outer_case(ctx, alg, iso, cfg, name):
             ctx.count('outertan_points')
             ctx.case(cid + [[str(v) for v in vals.values()]])
             t, own = iso.mv_to_ref(out[0]), iso.mv_to_ref(out[1])
-            tol = 1e-8 * scale
+            # the inverse of outercos is the closed form of C07 evaluated in floats (1/k! constants make the operand a float even for
+            # Fraction inputs); for d >= 4 its expanded degree-4 / degree-8 polynomials lose several digits on ordinary operands
+            tol = (1e-8 if alg.d <= 3 else 1e-6) * scale
 
             def differs(a_, b_):
                 return [k for k in set(a_) | set(b_) if abs(complex(a_.get(k, 0)) - complex(b_.get(k, 0))) > tol]
